@@ -31,6 +31,8 @@ pub fn exec(func: &str, a: &mut Args) -> String {
         // family / size distribution of the fu4 generator families (for the notes; not part of the check)
         "dbg_families4" => { let mut r = Rng::new(a.u() as u64); let thorough = a.u() != 0; let mut v = Vec::new();
             let d = gen_growth4(&mut r, thorough, &mut v); format!("{} cases; {}", v.len(), d) }
+        "dbg_families5" => { let mut r = Rng::new(a.u() as u64); let thorough = a.u() != 0; let mut v = Vec::new();
+            let d = gen_growth5(&mut r, thorough, &mut v); format!("{} cases; {}", v.len(), d) }
         // `TriMesh::from_polygon` observed through the mesh it builds: vertex buffer and `flat_indices()` (u32 view)
         "from_polygon_mesh" => { let p = poly(a);
             match TriMesh::from_polygon(p) { None => "none".into(), Some(m) => {
@@ -443,6 +445,7 @@ pub fn gen(r: &mut Rng, thorough: bool) -> Vec<(String, String)> {
     }
     gen_growth(r, thorough, &mut v);
     gen_growth4(r, thorough, &mut v);
+    gen_growth5(r, thorough, &mut v);
     v
 }
 
@@ -579,5 +582,114 @@ fn gen_growth4(r: &mut Rng, thorough: bool, v: &mut Vec<(String, String)>) -> St
     let mut s = String::new();
     for f in 0..5 { if cnt[f] > 0 { s.push_str(&format!("{}: {} polygons, n {}..{}; ", names[f], cnt[f], nmin[f], nmax[f])); } }
     s.push_str(&format!("dropped {}", dropped));
+    s
+}
+
+// ---------------------------------------------------------------- fu5: tiny-but-representable edges, needle pieces, extreme aspect ratios
+// (appended after the earlier families so that their random stream is unchanged)
+
+/// corners cut by a tiny chamfer: the vertex `v` is replaced by `v - d (v - prev)`, `v + d (next - v)` with `d = 2^-k`,
+/// `k` in 24..=42 (new edge 1e-7 … 1e-13 of the neighbouring edges; exactly representable on lattice input); convex and
+/// reflex corners alike (the cut stays inside a 2^-24 neighbourhood of `v`, so the polygon stays simple)
+fn chamfer(r: &mut Rng, lat: bool, p: &[P2], prob: u64) -> Vec<P2> {
+    let n = p.len(); let forced = r.below(n as u64) as usize;
+    let mut v = Vec::new();
+    for i in 0..n {
+        let (a, b, c) = (p[(i + n - 1) % n], p[i], p[(i + 1) % n]);
+        if i == forced || r.below(prob) == 0 {
+            // random placements: the cut must stay well above the rounding unit of the coordinates
+            let d = (0.5f64).powi(24 + r.below(if lat { 19 } else { 9 }) as i32);
+            // a doubled vertex split: sometimes only one of the two cut points moves (edge along one side only)
+            match r.below(4) {
+                0 => { v.push(b); v.push(P2::new(b.x + (c.x - b.x) * d, b.y + (c.y - b.y) * d)); }
+                _ => { v.push(P2::new(b.x - (b.x - a.x) * d, b.y - (b.y - a.y) * d)); v.push(P2::new(b.x + (c.x - b.x) * d, b.y + (c.y - b.y) * d)); }
+            }
+        } else { v.push(b); }
+    }
+    v
+}
+/// polygons whose convex partition contains a needle piece with >= 4 vertices, half-length `l`, half-width `w`
+/// (templates on exact coordinates; `t` selects the template)
+fn needle(t: u64, l: f64, w: f64, f: f64) -> Vec<(f64, f64)> {
+    match t {
+        // the polygon is the needle: kite / rhombus
+        0 => vec![(0.0, 0.0), (l, -w), (2.0 * l, 0.0), (l, w)],
+        // kite with a fin glued below its edge p1 p2 (reflex corner at p1 keeps the needle a piece of its own)
+        1 => vec![(0.0, 0.0), (l, -w), (2.0 * l, -f), (2.0 * l, 0.0), (l, w)],
+        // hexagonal needle (four flat side corners)
+        2 => vec![(0.0, 0.0), (l, -w), (2.0 * l, -w), (3.0 * l, 0.0), (2.0 * l, w), (l, w)],
+        // needle between two blocks: fins below p1 p2 and above p3 p0
+        3 => vec![(0.0, 0.0), (l, -w), (2.0 * l, -f), (2.0 * l, 0.0), (l, w), (0.0, f)],
+        // asymmetric kite (one side corner three times flatter than the other) with a fin
+        4 => vec![(0.0, 0.0), (l, -w), (2.0 * l, -f), (2.0 * l, 0.0), (0.5 * l, 0.25 * w)],
+        // two needles sharing a tip, separated by a notch
+        5 => vec![(0.0, 0.0), (l, -w), (2.0 * l, 0.0), (l, w), (0.0, 2.0 * f), (-l, w), (-2.0 * l, 0.0), (-l, -w)],
+        // needle pentagon standing on a block (block corners are right angles)
+        _ => vec![(0.0, 0.0), (2.0 * l, 0.0), (2.0 * l, f), (l, f + w), (0.0, f + 2.0 * w), (-l, f + w), (-2.0 * l, f), (-2.0 * l, 0.0)],
+    }
+}
+/// exact squash: the y coordinates scaled by `2^-k` (all orientation predicates of a lattice polygon keep their sign exactly)
+fn squash(base: &[(f64, f64)], k: i32) -> Vec<(f64, f64)> { let s = (0.5f64).powi(k); base.iter().map(|p| (p.0, p.1 * s)).collect() }
+
+fn push_all5(v: &mut Vec<(String, String)>, q: &[P2], r: &mut Rng) {
+    v.push(("triangulate".into(), hpoly(q)));
+    v.push(("from_polygon_mesh".into(), hpoly(q)));
+    v.push(("decompose".into(), hpoly(q)));
+    if let Some(m) = std::panic::catch_unwind(|| TriMesh::from_polygon(q.to_vec())).ok().flatten() {
+        let mut t: Vec<[u32; 3]> = m.indices().to_vec();
+        v.push(("hertel_mehlhorn_pts".into(), format!("{} {}", hpoly(q), htris(&t))));
+        for i in (1..t.len()).rev() { let j = r.below(i as u64 + 1) as usize; t.swap(i, j); }
+        for x in t.iter_mut() { let k = r.below(3) as usize; x.rotate_left(k); }
+        v.push(("hertel_mehlhorn".into(), format!("{} {}", hpoly(q), htris(&t))));
+        v.push(("decompose_tris".into(), format!("{} {}", hpoly(q), htris(&t))));
+    }
+}
+/// returns the family / size distribution as text
+fn gen_growth5(r: &mut Rng, thorough: bool, v: &mut Vec<(String, String)>) -> String {
+    let n = if thorough { 1800 } else { 180 };
+    let names = ["chamfer", "needle", "squashed"];
+    let mut cnt = [0usize; 3]; let mut nmin = [usize::MAX; 3]; let mut nmax = [0usize; 3]; let mut dropped = 0;
+    let mut ratio = [0usize; 4]; // needle aspect 1:1e3.., 1:1e4.., 1:1e5.., 1:1e6
+    for it in 0..n {
+        let lat = it % 2 == 0;
+        let fam = it % 3;
+        let q: Vec<P2> = match fam {
+            0 => { let p = match r.below(4) {
+                       0 => { let c = crate::registry::c15::gen_convex(r, lat); if c.len() < 3 { dropped += 1; continue; } c }
+                       1 => { let kk = 1 + r.below(2) as usize; let b = keyhole(r, kk); place(r, lat, &b) }
+                       2 => gen_simple(r, lat, false),
+                       _ => gen_simple2(r, lat, false) };
+                   let mut p = p; if !is_ccw(&p) { p.reverse(); }
+                   if lat && !simple_exact(&p) { dropped += 1; continue; }
+                   let p = chamfer(r, lat, &p, 4);
+                   rotate_start(r, p) }
+            1 => { let t = r.below(7);
+                   // aspect ratio w/l = 2^-e, e in 9..=20  (1:512 … 1:1e6); l, f powers of two
+                   // (polygon extents stay within D: lattice placements scale by <= 2, random ones by <= 20)
+                   let e = 9 + r.below(12) as i32; let l = *r.pick(&[2.0, 4.0, 8.0, 16.0]) * if lat { 1.0 } else { 0.125 }; let w = l * (0.5f64).powi(e);
+                   let f = *r.pick(&[0.5, 1.0, 2.0]);
+                   ratio[((e as f64 * 0.30103 - 3.0).max(0.0) as usize).min(3)] += 1;
+                   let base = needle(t, l, w, f);
+                   let mut p = place(r, lat, &base);
+                   if r.below(4) == 0 { p = subdivide(r, lat, &p, 4); }
+                   if !is_ccw(&p) { p.reverse(); }
+                   rotate_start(r, p) }
+            _ => { let m = 2 + r.below(6) as usize; let f2 = r.below(7);
+                   let base = match r.below(3) { 0 => { let kk = 1 + r.below(2) as usize; keyhole(r, kk) }
+                       1 => { let c = crate::registry::c15::gen_convex(r, true); if c.len() < 3 { dropped += 1; continue; } c.iter().map(|p| (p.x, p.y)).collect() }
+                       _ => family2(r, f2, m) };
+                   // exact placements keep every predicate's sign; a random rotation only for a moderate squash
+                   let k = if lat { 8 + r.below(13) as i32 } else { 6 + r.below(5) as i32 };
+                   let sq = squash(&base, k);
+                   let mut p = place(r, lat, &sq);
+                   if !is_ccw(&p) { p.reverse(); }
+                   rotate_start(r, p) }
+        };
+        let f = fam as usize; cnt[f] += 1; if q.len() < nmin[f] { nmin[f] = q.len(); } if q.len() > nmax[f] { nmax[f] = q.len(); }
+        push_all5(v, &q, r);
+    }
+    let mut s = String::new();
+    for f in 0..3 { if cnt[f] > 0 { s.push_str(&format!("{}: {} polygons, n {}..{}; ", names[f], cnt[f], nmin[f], nmax[f])); } }
+    s.push_str(&format!("needle aspect 1e-3/1e-4/1e-5/1e-6: {:?}; dropped {}", ratio, dropped));
     s
 }
